@@ -287,7 +287,11 @@ func check(c Case) (o h.Outcome) {
 		subst := route.Path
 		for _, v := range varsOf(route.Path) {
 			val, ok := params[v]
-			if !ok || val == "" {
+			if !ok {
+				o.Fail("missing-binding:"+c.Router, "path parameter %q of template %q is not among the returned parameters %v for request path %q", v, route.Path, params, c.Path)
+				return
+			}
+			if val == "" {
 				o.Fail("empty-binding:"+c.Router, "path parameter %q of template %q is bound to %q for request path %q", v, route.Path, val, c.Path)
 				return
 			}
